@@ -8,6 +8,7 @@ import (
 	"encoding/binary"
 	"encoding/json"
 	"fmt"
+	v1 "github.com/celestiaorg/go-square/v2/proto/blob/v1"
 	"strconv"
 	"strings"
 
@@ -738,6 +739,16 @@ func genC19(c *Ctx) {
 				}
 			}
 		}
+	}
+	// a signer that is present but EMPTY (non-nil, zero length) - only expressible through the struct-level
+	// entry points, never on the wire: refused for every share version, by NewBlobFromProto as by NewBlob
+	for _, sv := range []uint32{0, 1, 2} {
+		pb := &v1.BlobProto{NamespaceId: goodID, Data: []byte{7}, ShareVersion: sv, NamespaceVersion: 0, Signer: []byte{}}
+		_, err := share.NewBlobFromProto(pb)
+		c.check(err != nil, "NewBlobFromProto", "accepted a present but empty signer", map[string]any{"share_version": sv, "signer": "[]byte{} (non-nil)"})
+		_, err = share.NewBlob(nsOf(append([]byte{0}, goodID...)), []byte{7}, uint8(sv), []byte{})
+		c.check(err != nil, "NewBlob", "accepted a present but empty signer", map[string]any{"share_version": sv, "signer": "[]byte{} (non-nil)"})
+		c.add("blobnew", hx(append([]byte{0}, goodID...)), "07", strconv.Itoa(int(sv)), "-")
 	}
 	// version 255 namespaces (constructible) are rejected by NewBlob
 	c.add("blobnew", hx(tailNs), "07", "0", "nil")
